@@ -45,7 +45,7 @@ RULE = (
     "F1-F4 injected into a general form. distinct = canonical hash of (form, container); non-trivial = accepted by "
     "the converter"
 )
-SCRATCH = Path(os.environ.get("C01_SCRATCH", "/tmp/agents/c01"))
+SCRATCH = Path(os.environ.get("C01_SCRATCH", tempfile.gettempdir())) / "pyxv_c01_scratch"
 
 XHTML = "{http://www.w3.org/1999/xhtml}"
 XFORMS = "{http://www.w3.org/2002/xforms}"
